@@ -227,6 +227,11 @@ func (eb *EventBuilder) Build(
 		return
 	}
 
+	// Don't build an event that the receiving side would refuse to parse.
+	if err = checkContentKeys(eventJSON); err != nil {
+		return nil, BadJSONError{err}
+	}
+
 	res, err := eb.version.NewEventFromTrustedJSON(eventJSON, false)
 	if err != nil {
 		return nil, err
